@@ -843,13 +843,13 @@ func raceWorkload(r *vlib.Run, rep int, rng *rand.Rand) bool {
 func body(r *vlib.Run) {
 	if r.Race {
 		alive := true
-		r.ForTrials("race", r.N(24, 96), func(rep int, rng *rand.Rand) {
+		r.ForTrials("race", r.N(24, 240), func(rep int, rng *rand.Rand) {
 			if alive {
 				alive = raceWorkload(r, rep, rng)
 			}
 		})
 		// Linearizability trials under the race runtime as well (different scheduling).
-		r.ForTrials("part", r.N(150, 1500), func(trial int, rng *rand.Rand) {
+		r.ForTrials("part", r.N(150, 3000), func(trial int, rng *rand.Rand) {
 			if alive {
 				alive = partTrial(r, trial, rng)
 			}
@@ -862,9 +862,9 @@ func body(r *vlib.Run) {
 	for _, procs := range []int{16, 4, 2} {
 		runtime.GOMAXPROCS(procs)
 		mode := fmt.Sprintf("part%d", procs)
-		n := r.N(3000, 40000)
+		n := r.N(3000, 120000)
 		if procs != 16 {
-			n = r.N(600, 8000)
+			n = r.N(600, 24000)
 		}
 		r.ForTrials(mode, n, func(trial int, rng *rand.Rand) {
 			if alive {
@@ -873,13 +873,13 @@ func body(r *vlib.Run) {
 		})
 	}
 	runtime.GOMAXPROCS(16)
-	r.ForTrials("whole", r.N(10000, 150000), func(trial int, rng *rand.Rand) {
+	r.ForTrials("whole", r.N(10000, 400000), func(trial int, rng *rand.Rand) {
 		if alive {
 			alive = wholeTrial(r, trial, rng)
 		}
 	})
 	runtime.GOMAXPROCS(3)
-	r.ForTrials("whole3", r.N(3000, 40000), func(trial int, rng *rand.Rand) {
+	r.ForTrials("whole3", r.N(3000, 100000), func(trial int, rng *rand.Rand) {
 		if alive {
 			alive = wholeTrial(r, trial, rng)
 		}
